@@ -355,9 +355,18 @@ impl WriteAheadLog {
     }
 
     pub fn perform_flush(&mut self) -> io::Result<()> {
-        // Block 0 always exists, additional blocks start at index 1
-        let mut block_number: u64 = 1;
-        let mut write_offset = self.block_size as u64;
+        // Block 0 always exists. Blocks written by earlier flushes are durable and must not be
+        // overwritten: continue right after them. `total_blocks` counts the blocks on disk plus
+        // one id handed out per rotation, i.e. per block currently waiting in the queue.
+        let queued = self.flush_queue.len() as u64;
+        let mut block_number: u64 = self
+            .header
+            .metadata()
+            .wal_header
+            .total_blocks
+            .saturating_sub(queued)
+            .max(1);
+        let mut write_offset = block_number * self.block_size as u64;
 
         // Flush queued blocks
         while let Some(block) = self.flush_queue.pop_front() {
